@@ -36,6 +36,8 @@ class Task:
         self.static = static          # St for raw builtins
         self.watch = {}
         self.label = label or key
+        self.body = None
+        self.allowed_field_writes = ()
 
 
 class TaskResult:
